@@ -190,7 +190,7 @@ def main():
     stats["diffs"] = len(problems)
     # ---------------------------------------------------------------- classify problems: known finding / violation with input / no input
     known = [k for k in load_known() if k["property"] == pid]
-    seen = set()
+    seen = set(); confirmed = []; unconfirmed = []
     for pb in problems:
         key = pb.get("key")
         kf = next((k for k in known if k["key"] == key), None) if key else None
@@ -205,11 +205,14 @@ def main():
         payload = {"obligation": pb.get("obligation", "correspondence(model = implementation)"), "what": pb["what"], "case": pb["case"],
                    "hash_seed": pb.get("seed"), "impl_observed": pb.get("impl"), "model": pb.get("model"), "oracle": orc}
         if orc and orc.get("violates"):
-            violations.append((write_replay(pid, payload), ""))
+            confirmed.append(payload)
         else:
             payload["note"] = "implementation and verified model disagree but the definition-level oracle did not confirm a violation of the property on this input"
-            violations.append((write_replay(pid, payload), " no-failing-input-found"))
-        if len(violations) >= 5: break
+            unconfirmed.append(payload)
+        if len(confirmed) >= 5 or len(confirmed) + len(unconfirmed) >= 40: break
+    # disagreements that the definition-level oracle confirms as violations of the property come first (at most five lines in all)
+    for payload in confirmed[:5]: violations.append((write_replay(pid, payload), ""))
+    for payload in unconfirmed[:max(0, 5 - len(confirmed))]: violations.append((write_replay(pid, payload), " no-failing-input-found"))
     if pr["failures"] and not violations:
         # a proof / build obligation broke: look for a failing input over the whole case set with the oracle
         found = None
